@@ -20,6 +20,12 @@ AIMS = [
     "a defect at a BOUNDARY of a data type or a size: an empty or one-element collection, the largest or smallest number, a length of exactly some power of two, the first or last element, an absent versus a null value",
     "a defect that a REFACTORING would introduce: moving a computation to another place (earlier, later, into a helper, into a constructor, behind a cache), merging two similar functions into one, replacing a hand-written loop by a library call whose corner cases differ",
 ]
+if rnd % 2 == 1:
+    AIMS = [
+        "a defect in an ERROR or CLEANUP path: what happens after something has already gone wrong (the second error, the state left behind by a failed call, a deferred function, a partially built result that is reused)",
+        "a defect in STATE THAT LIVES ACROSS CALLS: a cache, a pool, a lazily initialised value, a package-level table or registry, an object that callers are allowed to reuse, a default that is read at one time and used at another",
+        "a defect in a detail of TEXT or NUMBER REPRESENTATION: bytes versus characters versus UTF-16 units, case folding, a particular escape sequence, a numeric format (exponent, sign, leading zero, precision), a separator that may also occur inside a value",
+    ]
 os.makedirs("/tmp/wt", exist_ok=True)
 for line in open(os.path.join(root, "properties.jsonl")):
     p = json.loads(line)
@@ -40,6 +46,7 @@ for line in open(os.path.join(root, "properties.jsonl")):
                      ". Yours must be DIFFERENT from all of them: another clause of the property statement, or the same clause through a completely different mechanism, in another function (preferably another file or package) than any of them.")
     extra.append(f"- This time aim for {aim}. If that aim does not fit this property at all, pick the nearest thing that does.")
     extra.append("- Make it as hard to notice as you can while staying realistic: prefer a violation that needs TWO or THREE things at once. Keep the patch small (at most about 20 changed lines).")
+    extra.append("- If, while reading or experimenting, you notice that the ORIGINAL checkout already violates this property for some input (independently of your change), say so at the end of your final answer in a line or two, with the input. Do not build your change on it.")
     extra.append("- Put a stub go.mod (`module mutantdeliverables`) inside MUTANT/ so that `go test ./...` at the repository root does not try to compile the demo copy, and put no other .go file than the demo copy there.")
     out = tmpl.replace("__DIR__", d).replace("__PROPERTY__", text) + "\n" + "\n".join(extra) + "\n"
     open(f"/tmp/wt/prompt_{pid}{letter}.txt", "w").write(out)
